@@ -15,7 +15,7 @@ tests=$(/venv/bin/python -m pytest -q -p no:cacheprovider 2>&1 | tail -1)
 /venv/bin/python demo_$m.py >/dev/null 2>&1; mutated=$?
 git checkout -q -- chartparse
 # 2. isolated copies
-rm -rf $pv; rsync -a --exclude .git --exclude replays --exclude seeded /verif/ $pv/
+rm -rf $pv; rsync -a --exclude .git --exclude replays --exclude seeded --exclude benign ${SRC:-/verif}/ $pv/
 git -C /repo worktree remove --force $pr 2>/dev/null
 git -C /repo worktree add -q --detach $pr HEAD && git -C $pr apply $wt/$m.diff || { echo "[$id] cannot prepare repo copy"; exit 2; }
 res=""
